@@ -33,6 +33,23 @@ def run(chk):
         ctx = evalctx.context(F, Effects(F), cls)
         for k_, f in enumerate([g for g in F.funcs(cls, "evaluate") if len(g["params"]) == 7]):
             check_assembly(chk, F, cls, f, order, spl, ctx, k_ == 0)
+    # ---- R6 premise: evaluate() obtains the gradient with respect to waypoints, durations and boundary states from the
+    # spline's propagateGrad / energy gradients; it is the gradient of the returned cost for every dimension and order only
+    # if that propagation is the exact adjoint of the construction map - C05's obligations, re-derived per spline
+    # instantiation of the witness set (both arms of the septic class)
+    from .. import core
+    from ..model import spline_model
+    from .common import alg_classes, SPLINES
+    from . import c05
+    for short in SPLINES:
+        for scls in alg_classes(F, short, ("update", "propagateGrad")):
+            sub = core.Check("C05", chk.tier, chk.root)
+            c05.check_class(sub, F, spline_model(F, scls), short)
+            rel = [o for o in sub.obs if o["rule"] in ("C05-R1", "C05-R2", "C05-R3", "C05-R4", "C05-R5")]
+            bad = [o for o in rel if not o["ok"]]
+            chk.ob("C07-R6", "%s::propagateGrad is the exact adjoint of the construction map (what evaluate() chains through)" % scls, len(rel) >= 10 and not bad, bad[0]["where"] if bad else "",
+                   "%d obligations of C05-R1..R5; first failing: %s" % (len(rel), bad[0]["instance"][:160] if bad else "-"), construct=scls + "/adjoint-premise")
+    chk.floor("C07-R6", 4)
     chk.floor("C07-R1", 60)
     chk.floor("C07-R2", 40)
     chk.floor("C07-R3", 60)
